@@ -207,48 +207,58 @@ def execute(ck, sc, idx, server=None, refused_port=None):
             s = D.Session(wd, n_runs, data_file, url)
             t0 = int(w.clock)
             timeline = []   # what the oracle sees: ('dp', d) | ('point', record)
-            w.clock += sc['load_gap']
-            now = int(w.clock)
-            w.begin_point('load', sc['load_script'])
-            s.load()
-            w.end_point()
-            for d in (sc.get('prior') or {}).get('dps', []):
-                events.append(dp_event(d))
-                timeline.append(('dp', d))
-            events.append({'k': 'send', 'now': now, 'script': sc['load_script']})
-            timeline.append(('point', w.points[-1]))
-            for i, st in enumerate(sc['steps']):
-                for d in st['dps']:
-                    s.feed(d)
+            crash = None
+            try:
+                w.clock += sc['load_gap']
+                now = int(w.clock)
+                w.begin_point('load', sc['load_script'])
+                s.load()
+                w.end_point()
+                for d in (sc.get('prior') or {}).get('dps', []):
                     events.append(dp_event(d))
                     timeline.append(('dp', d))
-                if st['by'] is None:
-                    continue
-                w.clock += st['gap']
-                now = int(w.clock)
-                w.begin_point('step%d' % i, st['script'], st.get('statuses'))
-                fl = D.InFlight(s, st.get('during') or [])
+                events.append({'k': 'send', 'now': now, 'script': sc['load_script']})
+                timeline.append(('point', w.points[-1]))
+                for i, st in enumerate(sc['steps']):
+                    for d in st['dps']:
+                        s.feed(d)
+                        events.append(dp_event(d))
+                        timeline.append(('dp', d))
+                    if st['by'] is None:
+                        continue
+                    w.clock += st['gap']
+                    now = int(w.clock)
+                    w.begin_point('step%d' % i, st['script'], st.get('statuses'))
+                    fl = D.InFlight(s, st.get('during') or [])
+                    if fl.dps:
+                        w.hook = fl
+                    s.completed(st['by'])
+                    w.end_point()
+                    fl.finish()
+                    add_point_events(events, timeline, {'k': 'send', 'now': now, 'script': st['script']}, w.points[-1], fl)
+                w.begin_point('close', sc['close_script'])
+                fl = D.InFlight(s, sc.get('close_during') or [])
                 if fl.dps:
                     w.hook = fl
-                s.completed(st['by'])
+                s.close()
                 w.end_point()
                 fl.finish()
-                add_point_events(events, timeline, {'k': 'send', 'now': now, 'script': st['script']}, w.points[-1], fl)
-            w.begin_point('close', sc['close_script'])
-            fl = D.InFlight(s, sc.get('close_during') or [])
-            if fl.dps:
-                w.hook = fl
-            s.close()
-            w.end_point()
-            fl.finish()
-            add_point_events(events, timeline, {'k': 'close', 'script': sc['close_script']}, w.points[-1], fl)
-            # probe: what is still held?  (a harness-only extra `close()` of the back end)
-            probe_script = ['refused'] * 6 if refused_port else ['ok']
-            w.begin_point('probe', probe_script)
-            s.db.close()
-            w.end_point()
-            events.append({'k': 'close', 'script': probe_script})
-            timeline.append(('point', w.points[-1]))
+                add_point_events(events, timeline, {'k': 'close', 'script': sc['close_script']}, w.points[-1], fl)
+                # probe: what is still held?  (a harness-only extra `close()` of the back end)
+                probe_script = ['refused'] * 6 if refused_port else ['ok']
+                w.begin_point('probe', probe_script)
+                s.db.close()
+                w.end_point()
+                events.append({'k': 'close', 'script': probe_script})
+                timeline.append(('point', w.points[-1]))
+            except lib.InfraError:
+                raise
+            except Exception as e:  # noqa: the implementation raised in the middle of the session
+                import traceback
+                tb = traceback.extract_tb(e.__traceback__)
+                crash = {'exception': type(e).__name__, 'message': str(e)[:200],
+                         'raised_in': tb[-1].name, 'at': w.point['label'] if w.point else None}
+                w.end_point()
             runs = s.runs
             env_expected = json.dumps(w.env, sort_keys=True)
             src = dict(D.SOURCE)
@@ -279,7 +289,8 @@ def execute(ck, sc, idx, server=None, refused_port=None):
                      'urls': sorted(set(a['url'][len(url):] for a in p['attempts'])),
                      'method_ctype': sorted(set((a['method'], a['ctype']) for a in p['attempts']))})
     impl = {'reqs': reqs}
-    return impl, op, {'timeline': timeline, 'data_file': data_file, 'underrun': underrun,
+    impl['crash'] = crash
+    return impl, op, {'crash': crash, 'timeline': timeline, 'data_file': data_file, 'underrun': underrun,
                       'options_calls': options_calls, 'expected_start': start_expected}
 
 
@@ -328,7 +339,7 @@ def oracle(ck, sc, book, inp):
         p = x
         if p['label'] == 'close':
             before_close = len(fed_all)      # what another thread hands over during the close itself comes later
-        if not p['attempts']:
+        if not p['attempts'] or 'decoded' not in p:
             continue
         dec = p['decoded']
         want = sorted([m for d in pending for m in flat_of(d)], key=repr)
@@ -387,7 +398,8 @@ def oracle(ck, sc, book, inp):
         if p['label'] == 'close':
             last_req_success = p['success']
     # final transmission succeeded -> every data point acknowledged exactly once
-    close_pt = [x for k, x in book['timeline'] if k == 'point' and x['label'] == 'close'][0]
+    close_pts = [x for k, x in book['timeline'] if k == 'point' and x['label'] == 'close']
+    close_pt = close_pts[0] if close_pts else {'attempts': []}       # no close when the session crashed before
     if (close_pt['attempts'] and close_pt['success']):
         want_all = sorted([m for d in fed_all[:before_close] for m in flat_of(d)], key=repr)
         if sorted(acked_upto_close(book), key=repr) != want_all:
@@ -442,6 +454,13 @@ def check_batch(ck, scenarios, server=None, refused_port=None, tag=''):
                 sample={'v2': sc['v2'], 'points': [(x['label'], [a['kind'] for a in x['attempts']])
                                                    for k, x in book['timeline'] if k == 'point']})
         bad = oracle(ck, sc, book, inp)
+        if book['crash']:
+            ck.oracle_fail('transmission_no_traceback', inp, book['crash'],
+                           signature={'clause': 'transmission_no_traceback', 'exception': book['crash']['exception'],
+                                      'raised_in': book['crash']['raised_in']})
+            ck.disagree('c17.session: the implementation raised, the model does not', inp, book['crash'],
+                        {'reqs': len(m)}, THEOREMS_SESSION + THEOREMS_ENC)
+            continue
         if i_reqs != m:
             which = first_difference(i_reqs, m)
             theorems = THEOREMS_SESSION + (THEOREMS_RETRY if which in ('used', 'waits', 'success') else []) + \
